@@ -455,13 +455,21 @@ fn run_migration(ctx: &Ctx) -> Report {
                     }
                 } else {
                     let pp = p;
+                    let late_decoy = h % 4 == 1;
                     let (back, outs) = std::thread::spawn(move || {
                         let mut inst = inst;
-                        let mut decoy = Inst::new(&pp);
+                        // on some hops the visited thread has constructed nothing of this type before the
+                        // visiting instance is used (per-thread scratch sized in the constructor)
+                        let mut decoy = if late_decoy { None } else { Some(Inst::new(&pp)) };
                         let mut outs = Vec::new();
                         for op in &chunk {
-                            decoy.apply(op);
+                            if let Some(d) = decoy.as_mut() {
+                                d.apply(op);
+                            }
                             outs.push(inst.apply(op));
+                            if decoy.is_none() && outs.len() > chunk.len() / 2 {
+                                decoy = Some(Inst::new(&pp));
+                            }
                         }
                         (inst, outs)
                     })
